@@ -472,19 +472,21 @@ def budget_early(c, tr):
     from c14 import top_ops, segments
     rets = segments(c, tr)
     tops = top_ops(c)
-    now, start, reads, seg_i = 0, 0, 0, 0
+    now, start, reads, seg_i, asked = 0, 0, 0, 0, None
     for i, (k, a) in enumerate(tr):
         if k == 1:
             now = max(now, a[0]); reads += 1
         elif k == 2:
             now += a[2]
+        elif k == 42 and a[0] == 2 and asked is None:
+            asked = a[1]                  # what this Send really offers (a pending TLS write is retried with ITS size, see sim.cpp)
         elif k == 40 and a[3] in (E_SSL, E_SYSCALL, E_ZERO):
             return None
         elif k == 20 and seg_i < len(rets) and i == rets[seg_i]:
             opc = a[0] % 1000
             top = tops[seg_i][1] if seg_i < len(tops) else []
             T = top[2] if opc in (23, 24) and len(top) > 2 else 0
-            nothing = (opc == 24 and a[1] == 1 and a[2] < 0) or (opc == 23 and a[1] == 1 and a[2] < top[1])
+            nothing = (opc == 24 and a[1] == 1 and a[2] < 0) or (opc == 23 and a[1] == 1 and a[2] < (asked if asked is not None else top[1]))
             if T > 0 and nothing:
                 elapsed = now - start
                 short = T * 1000000 - 1000000 - elapsed
@@ -494,7 +496,7 @@ def budget_early(c, tr):
                             "truncated to whole milliseconds)" % (opc, T, elapsed / 1e6, steps))
                     return ("f15" if short <= steps * 1000000 else "viol", text)
             seg_i += 1
-            start, reads = now, 0
+            start, reads, asked = now, 0, None
     return None
 
 
